@@ -180,6 +180,7 @@ def _points(ctx, cfg):
     r = z3.Real("r")
     ctx.add(r >= 0)
     ctx.input("points", [[c[i, k] for k in range(1 + D)] for i in range(M)])
+    ctx.input("no_frame_dict", bool(cfg.get("no_frame_dict")))
     ctx.input("r", r)
     ctx.env.update(t=[c[i, 0] for i in range(M)], M=M)
     pts = SArr(c.copy(), np.float64)
@@ -196,7 +197,12 @@ def _points(ctx, cfg):
     else:
         ctx.input("scale", None)
     try:
-        G = cg.compute_graph_from_points_list(pts, SReal(r), scale=scale)
+        if cfg.get("no_frame_dict"):
+            # the two-step public API: nodes first, then edges with the frame dictionary recomputed from the graph
+            G, _ = cu.nodes_from_points_list(pts, scale=scale)
+            cu.add_cand_edges(G, SReal(r))
+        else:
+            G = cg.compute_graph_from_points_list(pts, SReal(r), scale=scale)
     except Unsupported:
         raise
     except Exception as e:
@@ -244,7 +250,13 @@ def points_replay(f):
     r = _f(inp["r"])
     scale = None if inp.get("scale") is None else [_f(x) for x in inp["scale"]]
     try:
-        G = compute_graph_from_points_list(pts, r, scale=scale)
+        if inp.get("no_frame_dict"):
+            from funtracks.candidate_graph.utils import add_cand_edges, nodes_from_points_list
+
+            G, _ = nodes_from_points_list(pts, scale=scale)
+            add_cand_edges(G, r)
+        else:
+            G = compute_graph_from_points_list(pts, r, scale=scale)
         if scale is not None:
             pts = pts * np.array(scale)
     except Exception as e:
